@@ -51,14 +51,21 @@ impl SemVer {
 }
 
 impl SemVerPrefix {
+    /// Does `v` satisfy this requirement?
+    ///
+    /// This must accept exactly the versions that the resolver may pick for
+    /// this requirement (see `BucketVersion::from`, `BucketVersion::contains`
+    /// and `index_dep_package_and_range` in `resolve.rs`): `v` is not a
+    /// prerelease, it is semver-compatible with the prefix (same major version
+    /// or, below 1.0, same minor version), and it is at least as large as the
+    /// prefix with its missing components set to zero.
     pub fn matches(&self, v: &SemVer) -> bool {
-        match (self.minor, self.patch) {
-            (None, _) => v.major == self.major,
-            (Some(minor), None) => v.major == self.major && v.minor >= minor,
-            (Some(minor), Some(patch)) => {
-                v.major == self.major && v.minor == minor && v.patch >= patch
-            }
-        }
+        let minor = self.minor.unwrap_or_default();
+        let patch = self.patch.unwrap_or_default();
+        v.pre.is_empty()
+            && v.major == self.major
+            && (self.major != 0 || v.minor == minor)
+            && (v.minor, v.patch) >= (minor, patch)
     }
 }
 
@@ -96,10 +103,7 @@ impl From<SemVer> for FullSemVer {
     }
 }
 
-// This conversion loses information on which of the fields were present. This
-// information is sometimes relevant for comparing version requirements (e.g.,
-// "1.3.0" matches the requirement "1.2" but it doesn't match the requirement
-// "1.2.0").
+// This conversion loses information on which of the fields were present.
 impl From<SemVerPrefix> for SemVer {
     fn from(psv: SemVerPrefix) -> Self {
         Self {
